@@ -122,10 +122,59 @@ def run(res, tier):
     ]
     res.assumptions.append("rpki-rs rtr::Server::run ends on the first Err item (`sock?`) or None of the listener stream "
                            "(read off the pinned rpki-rs source)")
+    check_setup_never_panics(res, E)
     res.rule = ("one case = one feasible path of poll_next that returns Pending, or that returns Ready after a "
                 "connection setup; assertions on the paths where the per-connection setup failed: a wake-up is "
                 "arranged, and no Err item / end of stream is produced; evaluations = z3 queries")
     mprop.finish_engine(res, E)
+
+
+PANICKY = r"(Result|Option)(::<.*>)?::(unwrap|expect|unwrap_err|expect_err)$|panicking::|(^|::)(panic|panic_fmt|begin_panic|unwrap_failed|expect_failed|unreachable|panic_bounds_check)$|PANIC:"
+
+
+def check_setup_never_panics(res, E):
+    """per-connection setup fails by returning Err, never by panicking (a panic unwinds through poll_next and ends
+    the listener task just like an Err item would)"""
+    import nativetest
+    from gating import must
+    body = E.prog.find("src/rtr.rs", "RtrStream", "new")
+    paths = E.explore(body, max_visits=2, nomut=[r"."], inline=[r"RtrStream::set_keepalive", r"set_keepalive::\{closure"], follow_panics=True)
+    res.functions.append("routinator::rtr::RtrStream::{new, set_keepalive + closure} (MIR, panics followed)")
+    n = 0
+    sus = []
+    for i, p in enumerate(paths):
+        n += 1
+        if p.kind == "panic":
+            sus.append((p, "assertion / overflow check can fail: %s" % [e.name for e in p.events if e.kind == "panic"][-1:]))
+            continue
+        for e in p.events:
+            if e.kind != "call" or not re.search(PANICKY, e.name):
+                continue
+            forced = False
+            if re.search(r"::(unwrap|expect)$", e.name) and e.args:
+                a = e.args[0]
+                leaf = a.get(())
+                d = mir.peek(E, p.mem, (("o", leaf.id), "disc")) if isinstance(leaf, mir.Opq) else a.get(("disc",))
+                want = 1 if "Option" in e.name else 0
+                forced = d is not None and must(E, p, d == want)
+            if not forced:
+                sus.append((p, "%s on a value that is not forced to succeed" % e.name))
+    res.distinct += n
+    res.samples.append({"setup_paths": n, "possible_panics": [w for _, w in sus][:5]})
+    if not n:
+        res.inconclusive.append("vacuity: RtrStream::new has no explored path")
+    if sus:
+        failed, passed, out = nativetest.run_native_test("native_c19", "c19_native_setup_never_panics")
+        res.evaluations += 1
+        p, what = sus[0]
+        fn = mprop.write_cex(res, "setup_panics", p, E, "per-connection setup can panic: " + what + "\n\nnative replay (keepalive seconds around every conversion boundary):\n" + out[-2500:])
+        if failed:
+            res.violation("mir:setup-panics", "per-connection setup (RtrStream::new / set_keepalive) panics instead of returning an error (%s): "
+                          "the panic unwinds through RtrListener::poll_next and ends the listener task; reproduced natively" % what, fn)
+        elif passed:
+            res.inconclusive.append("possible panic in per-connection setup (%s) did not reproduce natively" % what)
+        else:
+            res.inconclusive.append("possible panic in per-connection setup (%s); native replay could not run" % what)
 
 
 _NATIVE = {}
@@ -140,7 +189,7 @@ def native_replay(res):
 
 def _native_replay(res):
     import nativetest
-    failed, passed, out = nativetest.run_native_test("native_c19", "c19_native")
+    failed, passed, out = nativetest.run_native_test("native_c19", "c19_native_pending_without_wake")
     m = re.search(r"C19-NATIVE (.*)", out)
     res.extra.setdefault("native_replays", []).append({"test": "c19_native_pending_without_wake", "failed": failed,
                                                        "observed": m.group(1) if m else None})
